@@ -39,7 +39,11 @@ def record(ctx, obs):
         ctx.count("stalls")
         ctx.maximum("max_stall_virtual_ms", int(waited * 1000))
         kinds = set(tags)
-        if kinds and kinds <= {("poll", "A"), ("cond-wait", "behind-poller")}:
+        if any(k[0] == "woken-without-recheck" for k in kinds):
+            ctx.violation("C14/stall/woken-but-did-not-look-at-its-result", "request %s: the waiter returned %.3g virtual s after its reply had been "
+                          "dispatched: it was woken on the receive condition and went on to %s without evaluating its result's "
+                          "readiness in between" % (token, waited, sorted(k[1] for k in kinds if k[0] == "woken-without-recheck")), wit)
+        elif kinds and kinds <= {("poll", "A"), ("cond-wait", "behind-poller")}:
             ctx.violation("C14/stall-after-reply-processed/in-serve", "request %s: the waiter returned %.3g virtual s after its reply had been dispatched by "
                           "another thread; it had re-entered serve() and sat in %s" % (token, waited, sorted(kinds)), wit)
         elif ("cond-wait", "nobody-polling") in kinds:
@@ -66,6 +70,10 @@ def run(ctx):
                 for d in (3, 40):
                     record(ctx, sharedconn.run_shared(cfg, 0, "scripted", script=[(name, nth, d)]))
                     ctx.count("systematic_delay_runs")
+                if ctx.enough():
+                    break
+            if ctx.enough():
+                return
     for i in range(ctx.budget(800, 500000)):
         cfg = rng.choice(cfgs)
         obs = sharedconn.run_shared(cfg, (ctx.seed, ctx.shard[0], i), "random" if i % 3 else "pct", p_switch=rng.choice([0.05, 0.2, 0.5]))
